@@ -4,7 +4,7 @@ import json
 import gen
 import pymc
 from pymc import T, to_obj, to_tree, LANGS
-from common import pmap, MachineryError
+from common import pmap, MachineryError, exc_name
 from gen import P, Q, TR, FA, L0, M0
 
 
@@ -25,7 +25,7 @@ def rewrite_event(c):
     except (KeyboardInterrupt, SystemExit, MemoryError):
         raise
     except BaseException as ex:
-        ev['exc'] = type(ex).__name__
+        ev['exc'] = exc_name(ex)
         ev['g'] = ['false']
     return ev
 
